@@ -108,11 +108,20 @@ func (v *UploadFinder) traverseValue(value ast.Value, valueTypeRef int) {
 		v.variableUsedDirectlyOnArg = !v.currentArgPath.hasPath()
 		v.traverseVariable(value.Ref, valueTypeRef)
 	case ast.ValueKindList: // when value is a list we will be traversing each list item
-		listItemTypeRef := valueTypeRef
+		listTypeRef := valueTypeRef
+		if v.definition.TypeIsNonNull(listTypeRef) {
+			listTypeRef = v.definition.Types[listTypeRef].OfType
+		}
+		if !v.definition.TypeIsList(listTypeRef) {
+			// a list literal in a position of a named type (a custom scalar): it has no item type
+			// and nothing inside it can be an Upload
+			return
+		}
+		listItemTypeRef := v.definition.Types[listTypeRef].OfType
 		for i, ref := range v.operation.ListValues[value.Ref].Refs {
 			// during traversion a list we track list index in the path
 			v.currentArgPath.pushArrayPath(i)
-			v.traverseValue(v.operation.Value(ref), v.definition.Types[listItemTypeRef].OfType)
+			v.traverseValue(v.operation.Value(ref), listItemTypeRef)
 			v.currentArgPath.popPath()
 		}
 	case ast.ValueKindObject: // when value is an object, we need to traverse it's fields
